@@ -90,6 +90,14 @@ def build_group(ctx, fam, g):
     # dependent parameters must be derived per key, not carried along)
     arts.append(workloads.rsa_artifact(rng, 'tiny'))
     arts.append(workloads.rsa_artifact(rng, 'word-large'))
+    # a healthy modulus of the same *byte* length as a weak one but two bits
+    # shorter, ahead of it (whatever a check derives from a key's size must
+    # be derived from that key)
+    u = workloads.rsa_artifact(rng, 'unseeded')
+    pn, qn = gen.semiprime(rng, u['n'].bit_length() - 2)
+    arts.append({'n': pn * qn, 'e': 65537, 'kind': 'healthy-two-bits-shorter',
+                 'p': pn, 'q': qn})
+    arts.append(u)
     protos = workloads.rsa_keys(arts)
     tags = [a['kind'] for a in arts]
     healthy = workloads.rsa_keys([workloads.rsa_artifact(rng, 'healthy')
